@@ -834,6 +834,10 @@ impl DirectAddrUpdateState {
                     }
                 }
 
+                // Release the net reporter before signalling completion: the actor reacts to the
+                // signal with `try_run`, which starts a pending update only if it can take the lock.
+                drop(net_reporter);
+
                 // mark run as finished
                 debug!("direct addr update done ({:?})", why);
                 run_done.send(()).await.ok();
